@@ -351,8 +351,11 @@ def run_item(it):
         res["evals"] += Eb.shape[0]
         for o in orders[s0:s0 + CH]:
             # non-trivial: at least one interior strict local maximum
-            if any(o[i - 1] < o[i] > o[i + 1] for i in range(1, nf - 1)):
+            npk = sum(1 for i in range(1, nf - 1) if o[i - 1] < o[i] > o[i + 1])
+            if npk:
                 res["n_nontrivial"] += 1
+            kk = "orderings-with-%d-strict-interior-peaks%s" % (npk, "" if len(set(o)) == len(o) else ",with-ties")
+            res["outcomes"][kk] = res["outcomes"].get(kk, 0) + 1
         for (b, stat, clause, pred, msg) in bad:
             if b == -1 and it.get("layout") == "fdesc":
                 b = 0
